@@ -128,20 +128,20 @@ Section LdaProofs.
   Lemma count_le1 (l : list bool) i : count_true l <= 1 -> nth i l false = true ->
     forall j, j <> i -> nth j l false = false.
   Proof.
-    unfold count_true. revert i; induction l as [|b l IH]; intros i Hc Hi j Hne.
+    unfold count_true. revert i; induction l as [|c0 l IH]; intros i Hc Hi j Hne.
     - destruct j; reflexivity.
     - destruct i as [|i]; simpl in Hi.
-      + subst b. simpl in Hc. destruct j as [|j]; [congruence|]. simpl.
+      + subst c0. simpl in Hc. destruct j as [|j]; [congruence|]. simpl.
         destruct (nth j l false) eqn:E; auto. exfalso.
-        assert (In true (filter (fun b => b) l)) by (apply filter_In; split; auto; rewrite <- E; apply nth_In;
+        assert (In true (filter (fun c : bool => c) l)) by (apply filter_In; split; auto; rewrite <- E; apply nth_In;
           destruct (lt_dec j (length l)); auto; rewrite nth_overflow in E by lia; discriminate).
-        destruct (filter (fun b => b) l); simpl in *; [contradiction | lia].
+        destruct (filter (fun c : bool => c) l); simpl in *; [contradiction | lia].
       + destruct j as [|j]; simpl.
-        * destruct b; auto. exfalso. simpl in Hc.
-          assert (In true (filter (fun b => b) l)) by (apply filter_In; split; auto; rewrite <- Hi; apply nth_In;
+        * destruct c0; auto. exfalso. simpl in Hc.
+          assert (In true (filter (fun c : bool => c) l)) by (apply filter_In; split; auto; rewrite <- Hi; apply nth_In;
             destruct (lt_dec i (length l)); auto; rewrite nth_overflow in Hi by lia; discriminate).
-          destruct (filter (fun b => b) l); simpl in *; [contradiction | lia].
-        * apply (IH i); auto. simpl in Hc. destruct b; simpl in Hc; lia.
+          destruct (filter (fun c : bool => c) l); simpl in *; [contradiction | lia].
+        * apply (IH i); auto. simpl in Hc. destruct c0; simpl in Hc; lia.
   Qed.
 
   Lemma bentry_bmat A i j : bentry (bmat A) i j = negb (fis0 (entry A i j)).
@@ -184,9 +184,9 @@ Section LdaProofs.
         by (rewrite map_length, seq_length; auto).
       rewrite (map_nth (fun j => count_true (map (fun row => nth j row false) B)) (seq 0 n) 0%nat i), seq_nth in H2 by auto.
       simpl in H2. apply Nat.leb_le in H2.
-      unfold nc in H3. rewrite (nth_indep _ false ((fun c => c <=? 1) 0%nat)) in H3 by (rewrite map_length; lia).
-      rewrite (map_nth (fun c => c <=? 1)) in H3. apply Nat.leb_le in H3.
-      rewrite nth_firstn in H3. destruct (i <? n) eqn:Ei; [| apply Nat.ltb_ge in Ei; lia].
+      rewrite (nth_indep _ false ((fun c => c <=? 1) 0%nat)) in H3 by (rewrite map_length; lia).
+      rewrite (map_nth (fun c => c <=? 1)) in H3. apply Nat.leb_le in H3. unfold nc in H3.
+      rewrite nth_firstn_lt in H3 by auto.
       rewrite (nth_indep _ 0%nat (count_true [])) in H3 by (rewrite map_length; lia).
       rewrite (map_nth count_true) in H3. auto. }
     split; [exact Lm | split].
@@ -199,8 +199,8 @@ Section LdaProofs.
       + (* column j has a single non-zero, on the diagonal *)
         destruct (Hmk j Hj Hm) as [Hdg [Hcol _]].
         assert (Hn : forall k, nth k (map (fun row => nth j row false) B) false = bentry B k j).
-        { intros k. unfold bentry. change false with ((fun row : list bool => nth j row false) []) at 1.
-          rewrite (map_nth (fun row => nth j row false)). destruct j; reflexivity. }
+        { intros k. unfold bentry. apply (nth_map_default (fun row : list bool => nth j row false)).
+          destruct j; reflexivity. }
         pose proof (count_le1 _ j Hcol) as E. rewrite Hn in E. specialize (E Hdg i Hne).
         rewrite Hn in E. unfold B in E. rewrite bentry_bmat in E. apply negb_false_iff, is0_spec in E. exact E.
     - intros i Hi Hm. destruct (Hmk i Hi Hm) as [Hdg _]. unfold B in Hdg. rewrite bentry_bmat in Hdg.
